@@ -54,7 +54,7 @@ def client_program(rng, nthreads, nops, cells=2, slots=3, maxheld=None, guard_op
 # ---------------------------------------------------------------------------------------------------------------
 # step-level reclaimer models (Model/EbrDefs.v, Model/HpDefs.v) and their trace correspondence (C01, C02)
 # ---------------------------------------------------------------------------------------------------------------
-MODEL_HARNESSES = [('ebr', (), False, ''), ('hp', ('XV_RECL=HPs<3>',), False, ''), ('qsbr', ('XV_RECL=QSBR',), False, '')]
+MODEL_HARNESSES = [('ebr', (), False, ''), ('hp', ('XV_RECL=HPs<3>',), False, ''), ('qsbr', ('XV_RECL=QSBR',), False, ''), ('lfrc', ('XV_RECL=LFRC', 'XV_DEFAULT_DELETER'), False, ''), ('he', (), False, '')]
 
 def model_program(rng, with_exit, regions=False):
     nth = rng.choice([2, 3, 3]); ncells = rng.choice([1, 2, 2]); nslots = rng.choice([1, 2, 3])
@@ -84,6 +84,17 @@ QSBR_FIXED = [
     ({'cells': '2', 'slots': '3', 'flushes': '12'}, [['hold 1 0', 'repl 0'], ['read 0', 'read 0', 'read 0'], ['hold 1 1', 'repl 1']]),
     ({'cells': '2', 'slots': '3', 'flushes': '12'}, [['repl 0', 'repl 1'], ['hold 0 0', 'deref 0', 'read 1', 'drop 0'], ['enter', 'read 0', 'repl 0', 'leave']]),
 ]
+LFRC_FIXED = [
+    # recycled-node race: a stale unvalidated increment on a node that is destroyed, pushed, popped and published again
+    ({'cells': '1', 'slots': '2', 'flushes': '2'}, [['read 0', 'read 0'], ['repl 0', 'repl 0', 'repl 0'], ['hold 0 0', 'deref 0', 'drop 0']]),
+    ({'cells': '2', 'slots': '2', 'flushes': '2'}, [['hold 0 0', 'read 1', 'drop 0'], ['repl 0', 'repl 1', 'clear 0'], ['read 0', 'repl 1']]),
+]
+HE_FIXED = [
+    # guards sharing one slot (same era), re-targeting with shared-slot release / set_era on the own slot, scan racing with acquisition
+    ({'cells': '2', 'slots': '3', 'flushes': '2'}, [['hold 0 0', 'hold 0 1', 'repl 0', 'hold 1 0', 'hold 0 1', 'drop 0', 'drop 1', 'exit'], ['read 0', 'repl 1', 'clear 0', 'repl 0', 'exit']]),
+    ({'cells': '1', 'slots': '3', 'flushes': '2'}, [['hold 0 0', 'hold 0 1', 'deref 0', 'hold 0 0', 'deref 1', 'hold 0 2', 'read 0', 'drop 1', 'deref 0', 'exit'], ['repl 0', 'repl 0', 'repl 0', 'exit'], ['repl 0', 'read 0', 'repl 0', 'exit']]),
+    ({'cells': '2', 'slots': '3', 'flushes': '2'}, [['hold 0 0', 'hold 1 1', 'hold 0 2', 'read 1', 'hold 1 0', 'read 0', 'exit'], ['repl 1', 'repl 1', 'repl 1', 'repl 1', 'exit']]),
+]
 HP_FIXED = [
     ({'cells': '2', 'slots': '3', 'flushes': '2'}, [['hold 0 0', 'hold 1 1', 'hold 0 2', 'read 0', 'repl 1', 'drop 1', 'repl 1', 'exit'], ['repl 0', 'repl 1', 'exit'], ['repl 1', 'clear 0', 'clear 0', 'exit']]),
     ({'cells': '2', 'slots': '3', 'flushes': '2'}, [['hold 0 0', 'deref 0', 'deref 0', 'exit'], ['repl 0', 'repl 0', 'exit']]),
@@ -102,6 +113,15 @@ def model_ties(ctx, do_correspondence, tie_broken_sig):
         cases = QSBR_FIXED + [model_program(rng, False, regions=True) for _ in range(k)]
         st = do_correspondence(ctx, 'qsbr', Hs.pop('qsbr'), cases, 8 if thorough else 4, 'quiescent_state_based')
         tie = tie or tie_broken_sig(st, 'qsbr')
+    if 'lfrc' in Hs:
+        cases = LFRC_FIXED + [model_program(rng, False) for _ in range(k)]
+        st = do_correspondence(ctx, 'lfrc', Hs.pop('lfrc'), cases, 8 if thorough else 4, 'lock_free_ref_count')
+        tie = tie or tie_broken_sig(st, 'lfrc')
+    if 'he' in Hs:
+        cases = HE_FIXED + [model_program(rng, True) for _ in range(k)]
+        for cfg, prog in cases: cfg['flushes'] = '2'
+        st = do_correspondence(ctx, 'he', Hs.pop('he'), cases, 8 if thorough else 4, 'hazard_eras')
+        tie = tie or tie_broken_sig(st, 'he')
     if 'hp' in Hs:
         cases = HP_FIXED + [model_program(rng, True) for _ in range(k)]
         for cfg, prog in cases: cfg['flushes'] = '2'
